@@ -1,3 +1,4 @@
+import re
 from itertools import islice
 
 import renew
@@ -98,12 +99,9 @@ class Constant(ModelNode):
                 return None
 
     def dependencies(self):
-        def sub_(x, y):
-            return x.replace(y, " ")
-
-        for symbol in six.reduce(sub_, "()+-", self.value).split():
-            if not symbol.isdigit():
-                yield symbol
+        """ Names of constants and enumerators used in the value expression. """
+        for symbol in re.findall(r"\b[A-Za-z_]\w*\b", self.value):
+            yield symbol
 
 
 class EnumMember(Constant):
@@ -317,7 +315,8 @@ class Enum(_Container):
 
     def dependencies(self):
         for member in self.members:
-            yield member.name
+            for dependency in member.dependencies():
+                yield dependency
 
 
 class _SerializableContainer(_Container, _Serializable):
@@ -393,6 +392,9 @@ def topological_sort(nodes):
     def model_sort_rotate():
         node = nodes[index]
         for dep in node.dependencies():
+            dep = enumerator_owner.get(dep, dep)
+            if dep == node.name and isinstance(node, Enum):
+                continue
             if dep not in known and dep in available:
                 found_index = find_first_dep(dep, index + 1)
                 if found_index:
@@ -402,6 +404,9 @@ def topological_sort(nodes):
 
     known = set(x + y for x in "uir" for y in ["8", "16", "32", "64"])
     available = set(node.name for node in nodes)
+    """an enumerator is defined by its enum: depending on the enumerator means depending on the enum"""
+    enumerator_owner = dict((member.name, node.name) for node in nodes if isinstance(node, Enum)
+                            for member in node.members)
     for index in range(len(nodes)):
         rotations = 0
         while model_sort_rotate():
